@@ -143,7 +143,7 @@ def asym_annulus_ok(r):
 
 ANY = 'spec/abstract_region.py::AnyPixelRegion'
 BBOX = 'regions/core/bounding_box.py::RegionBoundingBox'
-OPS = ('and_', 'or_', 'xor')
+OPS = ('and_', 'or_', 'xor', 'gt')      # gt: a and not b, an operator whose operands cannot be swapped
 
 
 def anybox(B, name):
